@@ -201,6 +201,186 @@ fn run_uc(ctx: &RunCtx) -> RunOut {
 }
 
 // ---------------------------------------------------------------------------------------------
+// forged update-check answers inside arbitrary histories: every step of the history is drawn from a
+// menu (genuine checks with and without a poll interval, an installed update, a failed check, a
+// check with a forged report, a restart, a forged update check); every forged update check of the
+// history is judged against the state the policy saw just before it.
+
+fn judge_forged_uc(h: &Hist, setup: &Setup, l0: usize, base: Option<(Sched, PState, Vec<AppView>)>, exp: usize, what: &str) -> V {
+    let log = h.log();
+    let seg = &log[l0..];
+    let (bs, bp, bapps) = base.ok_or(("no baseline policy call".to_string(), String::new()))?;
+    let n_uc = seg.iter().filter(|o| matches!(o, Obs::Req(r) if r.kind == ReqKind::UpdateCheck)).count();
+    let n_req = seg.iter().filter(|o| matches!(o, Obs::Req(_))).count();
+    if n_uc != exp || n_req != exp {
+        return bad(format!("{n_uc} update-check requests / {n_req} requests in a check whose attempt {exp} got an unauthenticated answer"), what);
+    }
+    if seg.iter().any(|o| matches!(o, Obs::Ev(Ev::ServerResp(_)))) {
+        return bad("server response announced for an unauthenticated answer", what);
+    }
+    if seg.iter().any(|o| matches!(o, Obs::PlanCall { .. } | Obs::InstallCall { .. } | Obs::CanStart { .. } | Obs::Reboot(_))) {
+        return bad("installer or install policy consulted after an unauthenticated answer", what);
+    }
+    let states: Vec<State> = seg.iter().filter_map(|o| if let Obs::Ev(Ev::State(s)) = o { Some(*s) } else { None }).collect();
+    if !matches!(states.as_slice(), [State::CheckingForUpdates(_), State::ErrorCheckingForUpdate, State::Idle]) {
+        return bad(format!("states {states:?} after an unauthenticated update-check answer"), what);
+    }
+    match seg.iter().find_map(|o| if let Obs::Ev(Ev::Result(r)) = o { Some(r.clone()) } else { None }) {
+        Some(Err(ErrKind::CupValidation(_))) => {}
+        other => return bad(format!("check result {other:?}, expected a validation error"), what),
+    }
+    for o in seg {
+        if let Obs::Ev(Ev::Proto(p)) = o {
+            if p.poll != bp.poll {
+                return bad("poll interval changed by an unauthenticated answer", format!("{:?} -> {:?}; {what}", bp.poll, p.poll));
+            }
+        }
+    }
+    let (s2, p2, a2) = seg
+        .iter()
+        .rev()
+        .find_map(|o| match o {
+            Obs::ComputeNext { apps, sched, state, .. } => Some((*sched, *state, apps.clone())),
+            _ => None,
+        })
+        .ok_or(("no policy call after the check".to_string(), String::new()))?;
+    if p2.fails != bp.fails.saturating_add(1) {
+        return bad(format!("failure count {} -> {} after one failed (unauthenticated) check", bp.fails, p2.fails), what);
+    }
+    if p2.poll != bp.poll {
+        return bad("poll interval handed to the policy changed by an unauthenticated answer", format!("{:?} -> {:?}; {what}", bp.poll, p2.poll));
+    }
+    if s2.last_update_time != bs.last_update_time {
+        return bad("last-contact time changed by an unauthenticated answer", what);
+    }
+    if a2 != bapps {
+        return bad("cohort / user-counting data changed by an unauthenticated answer", format!("{bapps:?} -> {a2:?}; {what}"));
+    }
+    let snap = h.exec.as_ref().unwrap().w.lock().unwrap().store.committed.clone();
+    let (s3, p3, a3) = hist::present_after_rebuild(setup, &snap).ok_or(("rebuilt machine silent".to_string(), String::new()))?;
+    if p3.poll != bp.poll || p3.fails != bp.fails.saturating_add(1) {
+        return bad("storage after an unauthenticated answer holds a changed poll interval or a wrong failure count", format!("{p3:?}; {what}"));
+    }
+    let trunc = |t: Option<T>| t.and_then(|t| t.wall).map(|w| w / 1000);
+    if trunc(s3.last_update_time) != trunc(bs.last_update_time) {
+        return bad("storage after an unauthenticated answer holds a changed last-contact time", what);
+    }
+    if a3 != bapps {
+        return bad("storage after an unauthenticated answer holds changed cohort / user-counting data", format!("{a3:?}; {what}"));
+    }
+    Ok(())
+}
+
+fn run_uc_hist(ctx: &RunCtx, prefix_len: usize) -> RunOut {
+    let mut setup = Setup::new(Mode::Start);
+    setup.cup = true;
+    let ids: Vec<String> = setup.apps.iter().map(|a| a.id.clone()).collect();
+    let mut h = Hist::new(setup.clone(), Store::default());
+    let mut desc: Vec<String> = vec![];
+    let mut judged = 0usize;
+    let mut verdict: V = Ok(());
+    for step in 0..=prefix_len {
+        let last = step == prefix_len;
+        // the last step is always a forged update check
+        let class = if last { 3 } else { choose("step", 7) };
+        let l0 = h.log().len();
+        let base: Option<(Sched, PState, Vec<AppView>)> = h.log().iter().rev().find_map(|o| match o {
+            Obs::ComputeNext { apps, sched, state, .. } => Some((*sched, *state, apps.clone())),
+            _ => None,
+        });
+        match class {
+            0 | 1 => {
+                let mut k = h.knobs();
+                *k = hist::Knobs::default();
+                k.uc = Uc::NoUpdate;
+                k.doc = Some(genuine_doc(&ids));
+                if class == 0 {
+                    k.uc_retry_after = Some(b"30".to_vec());
+                }
+                drop(k);
+                h.check();
+                desc.push(if class == 0 { "genuine+interval".into() } else { "genuine".into() });
+            }
+            2 => {
+                let mut k = h.knobs();
+                *k = hist::Knobs::default();
+                k.uc = Uc::Update;
+                drop(k);
+                h.check();
+                desc.push("install".into());
+            }
+            3 => {
+                let n_earlier = h.exec.as_ref().unwrap().w.lock().unwrap().exchanges.len();
+                let second_attempt = choose("forge_second_attempt", 2) == 1;
+                let poll_in_force = base.as_ref().map(|b| b.1.poll.is_some()).unwrap_or(false);
+                if step == 0 || (second_attempt && poll_in_force) {
+                    // no baseline yet (first step) / no second attempt while an interval is in force: a plain failed check instead
+                    let mut k = h.knobs();
+                    *k = hist::Knobs::default();
+                    k.uc = Uc::Transport;
+                    drop(k);
+                    h.check();
+                    desc.push("failed".into());
+                } else {
+                    let f = choose_forge(if second_attempt { 1 } else { 0 }, n_earlier);
+                    let mut k = h.knobs();
+                    *k = hist::Knobs::default();
+                    k.uc = if second_attempt { Uc::Transport } else { Uc::NoUpdate };
+                    k.forge = Some(f);
+                    drop(k);
+                    h.check();
+                    let what = format!("step {step}: {} carrying {} (attempt {})", FORGE_KINDS[f.kind], FORGE_PAYLOADS[f.payload], if second_attempt { 2 } else { 1 });
+                    desc.push(format!("forged-uc[{},{}{}]", f.kind, f.payload, if second_attempt { ",2nd" } else { "" }));
+                    judged += 1;
+                    if verdict.is_ok() {
+                        verdict = judge_forged_uc(&h, &setup, l0, base, if second_attempt { 2 } else { 1 }, &format!("{what} after {desc:?}"));
+                    }
+                }
+            }
+            4 => {
+                let pos = 1 + choose("report_position", 3);
+                let n_earlier = h.exec.as_ref().unwrap().w.lock().unwrap().exchanges.len();
+                let f = choose_forge(pos, n_earlier);
+                let mut k = h.knobs();
+                *k = hist::Knobs::default();
+                k.uc = Uc::Update;
+                k.forge = Some(f);
+                drop(k);
+                h.check();
+                desc.push(format!("install+forged-report{pos}[{},{}]", f.kind, f.payload));
+            }
+            5 => {
+                h.restart();
+                desc.push("restart".into());
+            }
+            _ => {
+                let mut k = h.knobs();
+                *k = hist::Knobs::default();
+                k.uc = Uc::Transport;
+                drop(k);
+                h.check();
+                desc.push("failed".into());
+            }
+        }
+        if verdict.is_err() {
+            break;
+        }
+    }
+    let log = h.log();
+    let mut out = RunOut::new(format!("judged{judged}"), judged > 0, trace::digest(&log));
+    if ctx.want_trace {
+        out.trace = Some(json!({"history": desc, "log": trace::trace_json(&log)}));
+    }
+    if let Some(p) = h.problems.first() {
+        return out.fail(format!("driver problem: {p}"), format!("{desc:?}"));
+    }
+    match verdict {
+        Ok(()) => out,
+        Err((k, m)) => out.fail(k, m),
+    }
+}
+
+// ---------------------------------------------------------------------------------------------
 // forged event reports and pings: differential against a transport failure at the same position
 
 #[derive(Clone, Copy, Debug, PartialEq)]
@@ -322,8 +502,22 @@ fn run_reports(ctx: &RunCtx) -> RunOut {
     out
 }
 
-fn parts(_tier: Tier) -> Vec<PartDef> {
-    vec![
+fn parts(tier: Tier) -> Vec<PartDef> {
+    let hist_part = |plen: usize, d: usize| {
+        let name = format!("forged-update-check-in-histories-len{plen}-dev{d}");
+        PartDef::new(
+            &name,
+            Cfg::new(&format!("C02/{name}")).dev(d).free(&["step"]),
+            json!({"prefix_steps": plen, "step_menu": ["genuine check + poll interval", "genuine check (clears the interval)", "installed update", "forged update check (judged)", "installed update with a forged event report", "restart", "failed check"],
+                   "last_step": "forged update check (judged)", "exploration": format!("step classes exhaustive; forgery kind / payload / position / attempt / replay source of all forged steps together within {d} departures from (no ETag, no-update payload, attempt 1, report 1)")}),
+            move |ctx| run_uc_hist(ctx, plen),
+        )
+    };
+    let mut v = match tier {
+        Tier::Quick => vec![hist_part(2, 2)],
+        Tier::Thorough => vec![hist_part(3, 3), hist_part(4, 2)],
+    };
+    v.extend(vec![
         PartDef::new(
             "forged-update-check",
             Cfg::new("C02/forged-update-check"),
@@ -338,5 +532,6 @@ fn parts(_tier: Tier) -> Vec<PartDef> {
                    "replay_sources": "every earlier genuine exchange of the history", "oracle": "log equality with the transport-failure run, modulo the answer line", "exploration": "full product"}),
             run_reports,
         ),
-    ]
+    ]);
+    v
 }
